@@ -25,6 +25,7 @@ CONSTANTS N,            \* number of qubits
           WithQueries,  \* query actions enabled (they multiply the state count)
           WithMixed,    \* measurement / dephasing / reset actions enabled (stabilizer mixtures)
           HeavyLaws,    \* evaluate the quantified laws (SSA, relabelling over all permutations)
+          SlimGates,    \* only H, S, CX move the register (same reachable states, fewer transitions)
           Mutant        \* "" or the name of a deliberately wrong shortcut route (model self-test)
 
 VARIABLES grp,   \* the stabilizer group
@@ -106,10 +107,10 @@ Step(G, h) == qry = NoQuery /\ grp' = G /\ hist' = Append(hist, h) /\ qry' = NoQ
 ActH  == \E q \in Q : qry = NoQuery /\ Step(ApplyGate(grp, "H", <<q>>), <<"H", q>>)
 ActS  == \E q \in Q : qry = NoQuery /\ Step(ApplyGate(grp, "S", <<q>>), <<"S", q>>)
 ActCX == \E c, t \in Q : c # t /\ Step(ApplyGate(grp, "CX", <<c, t>>), <<"CX", c, t>>)
-ActCZ == \E c, t \in Q : c < t /\ Step(ApplyGate(grp, "CZ", <<c, t>>), <<"CZ", c, t>>)
+ActCZ == ~SlimGates /\ \E c, t \in Q : c < t /\ Step(ApplyGate(grp, "CZ", <<c, t>>), <<"CZ", c, t>>)
 Transpositions == {x \in Perms : \E i \in Q : x[i] # i /\ x[x[i]] = i /\ \A j \in Q \ {i, x[i]} : x[j] = j}
 RelabelSet == IF HeavyLaws THEN Perms ELSE Transpositions
-ActRelabel == \E p \in RelabelSet : qry = NoQuery /\ Step(Relabel(grp, p), <<"PERM">> \o [i \in Q |-> p[i]])
+ActRelabel == ~SlimGates /\ \E p \in RelabelSet : qry = NoQuery /\ Step(Relabel(grp, p), <<"PERM">> \o [i \in Q |-> p[i]])
 ActMeasure ==
   /\ WithMixed
   /\ \E q \in Q, m \in 0..1 :
@@ -291,6 +292,13 @@ L_ImplRoutes ==
        /\ \A ab \in DisjPairs : /\ ImplMutinfSubsys(grp, ab[1], ab[2]) = MutInf(grp, ab[1], ab[2])
                                 /\ ImplLognegSubsys(grp, ab[1], ab[2]) = LogNeg(grp, ab[1], ab[2])
 
+\* the part of ImplRoutes that three qubits cannot exercise: re-indexing with three kept subsystems
+L_ImplRoutes4 ==
+  IsPure(grp, N) =>
+    \A ab \in DisjPairs : (Cardinality(ab[1] \cup ab[2]) = N - 1) =>
+        /\ ImplLognegSubsys(grp, ab[1], ab[2]) = LogNeg(grp, ab[1], ab[2])
+        /\ ImplMutinfSubsys(grp, ab[1], ab[2]) = MutInf(grp, ab[1], ab[2])
+
 (* the laws are evaluated once per register state (not again on the query states) *)
 AtState == qry = NoQuery
 Bounds == AtState => L_Bounds
@@ -305,4 +313,5 @@ MeasurementLaws == AtState => L_MeasurementLaws
 ChannelLaws == AtState => L_ChannelLaws
 PauliVectorLaws == AtState => L_PauliVectorLaws
 ImplRoutes == AtState => L_ImplRoutes
+ImplRoutes4 == AtState => L_ImplRoutes4
 =============================================================================
